@@ -197,6 +197,8 @@ def _unit(n):
 def mirror_alts(a, b):
     """all ways (up to CAP) in which a equals b up to renaming: a list of renamings, each a list of (text in a, text in b); [] = no way"""
     a, b = strip(a), strip(b)
+    if a.k == 'ConditionalOperator' and b.k == 'ConditionalOperator' and a.fn.in_assert(a) and b.fn.in_assert(b):
+        return [[]]            # assertions are not compared (their expansion carries line numbers)
     ia, ib = is_inf(a), is_inf(b)
     if ia or ib:
         return [[('@inf' + ia, '@inf' + ib)]] if (ia and ib) else []
@@ -207,7 +209,8 @@ def mirror_alts(a, b):
             if oa != ob:
                 return []
             return (_prod(mirror_alts(la, lb), mirror_alts(ra, rb)) + _prod(mirror_alts(la, rb), mirror_alts(ra, lb)))[:CAP]
-        if ob not in (oa, FLIP[oa]):
+        strict = ob not in (oa, FLIP[oa])
+        if strict and ob not in ('<', '<=', '>', '>='):
             return []
         subs = [[]]
         infs = []
@@ -221,15 +224,15 @@ def mirror_alts(a, b):
                 subs = _prod(subs, mirror_alts(x, y))
                 if not subs:
                     return []
-        zero = is_zero(la) or is_zero(ra)
-        flipped = (ob == FLIP[oa])
+        flipped = (ob[0] != oa[0])
         out = []
         for sub in subs:
             changed = any(p != q for p, q in sub if not p.startswith('@'))
             extra = []
-            if not zero and flipped != changed:
-                extra.append(('@cmp:' + render(a)[:40], '@cmp!' + render(b)[:40]))
-            if infs and any(f != changed for f in infs):
+            if strict:
+                extra.append(('@op:' + render(a)[:40], '@op!' + render(b)[:40]))
+            # a comparison with infinity: the operator, the sign of infinity and the side (lower / upper) of the other operand flip together
+            if infs and (any(f != changed for f in infs) or flipped != changed):
                 extra.append(('@infcmp:' + render(a)[:40], '@infcmp!' + render(b)[:40]))
             out.append(extra + sub)
         return out
@@ -281,11 +284,11 @@ def renaming_defects(ren):
     out = []
     fwd = {}
     for p, q in ren:
-        if p.startswith('@cmp:'):
-            out.append('the comparison `%s` / `%s` is flipped although its operands are the same, or not flipped although they were exchanged' % (p[5:], q[5:]))
+        if p.startswith('@op:'):
+            out.append('`%s` / `%s`: one comparison is strict where its counterpart is not' % (p[4:], q[4:]))
             continue
         if p.startswith('@infcmp:'):
-            out.append('`%s` / `%s`: the sign of infinity does not follow the exchange of the operand' % (p[8:], q[8:]))
+            out.append('`%s` / `%s`: operator, sign of infinity and side of the compared quantity do not flip together' % (p[8:], q[8:]))
             continue
         if p.startswith('@inf'):
             continue
@@ -342,6 +345,13 @@ MIRROR_ASYMMETRIC = {
         'the second arm tests `upper >= -infinity` (always true) where the mirror image is `upper >= infinity`: the function then returns before any '
         'reduction whenever a column has a positive objective coefficient - a lost reduction, not a wrong one (see CONSTANT_ACCEPTED)',
 }
+# mirror-named function pairs whose bodies are deliberately not mirror images: '<function>/<sibling>' -> reason
+PAIR_ASYMMETRIC = {
+    'SPxFastRT<double>::maxDelta/minDelta': '`max` is the name of the step-length parameter (an upper limit for the step) in both functions',
+    'SPxFastRT<double>::maxSelect/minSelect': '`max` is the name of the step-length parameter (an upper limit for the step) in both functions',
+    'SPxFastRT<double>::minSelect/maxSelect':
+        'the loop exchanges low[] and up[]; the final computation of bestDelta keeps low / up and flips the sign test on upd[bestNr] instead - the same thing written the other way round',
+}
 # constant comparisons that are accepted: key -> reason
 CONSTANT_ACCEPTED = {
     'SPxMainSM<double>::propagatePseudoobj|cmp(lp.upper(j) >= -inf)#1':
@@ -358,9 +368,10 @@ TEXT = {
     'S2': 'a position-or-minus-one value (pos(), number(), permutation entries) is compared with 0 only by `< 0` / `>= 0`',
     'S4': 'a descending counting loop that starts at a computed value runs down to 0 (`>= 0`), not to 1',
     'S5': 'inside a loop over the positions of a sparse vector the vector is never subscripted by index with the position',
-    'S6': 'an else-if chain with lower/upper (or sign) mirror-image conditions has mirror-image arms',
+    'S6': 'an else-if chain (or two consecutive ifs) with lower/upper (or sign) mirror-image conditions has mirror-image arms',
+    'S7': 'two member functions whose names are lower/upper (lhs/rhs, min/max, ...) mirror images and whose bodies have the same shape are mirror images',
 }
-FLOORS = {'S1': 350, 'S2': 60, 'S4': 260, 'S5': 150, 'S6': 45}
+FLOORS = {'S1': 350, 'S2': 60, 'S4': 260, 'S5': 150, 'S6': 45, 'S7': 90}
 SPARSE = re.compile(r'^(const )?(class )?(soplex::)?(SVectorBase|SSVectorBase|DSVectorBase|UnitVectorBase)<')
 PERMNAME = re.compile(r'perm', re.I)
 
@@ -375,6 +386,8 @@ def _scan(fb):
     dead = _dead(fb)
     res = {k: [] for k in TEXT}       # rule -> [(func, key, where, ok, detail)]
     ctl = set()
+    comparable = set()   # chains / pairs whose two sides have the same shape today
+    nc = {}              # chains / pairs with mirror-image conditions / names whose sides differ in shape: key -> where
     # functions returning -1 on some path (the "position or -1" protocol), by USR
     minus1 = set()
     for f in fb.funcs.values():
@@ -470,28 +483,77 @@ def _scan(fb):
                                     '%s runs over the positions 0..%s.size()-1 of the sparse vector, but `%s` looks up the entry whose INDEX is %s: the value at position %s is %s.value(%s)' % (v, recv, render(x)[:50], v, v, recv, v), 'S5')
                         put('S5', 'loop(%s < %s.size())' % (v, recv[:30]), n, True, '%d positional reads' % nuse, 'S5ok')
             # ---- S6
+            pairs6 = []
             if n.k == 'IfStmt' and n.kid('else') is not None and n.kid('else').k == 'IfStmt':
-                y = n.kid('else')
-                c1, c2 = n.kid('cond'), y.kid('cond')
-                if c1 is not None and c2 is not None and render(c1) != render(c2) and chain_mirror(c1, c2):
-                    alts = mirror_alts(n.kid('then'), y.kid('then'))
-                    comparable = bool(alts)
-                    k_ = '%s|chain(%s)' % (_fname(f), render(c1)[:50])
-                    if not comparable:
-                        _CACHE['s6_nc'] = _CACHE.get('s6_nc', 0) + 1
-                        continue
-                    why = best(alts)[0]
-                    if isctl:
-                        if why:
-                            ctl.add('S6')
-                    elif k_ in MIRROR_ASYMMETRIC:
-                        res['S6'].append((f, key('chain(%s)' % render(c1)[:50]), '%s:%d' % (f.file, n.l), True, 'listed as asymmetric: ' + MIRROR_ASYMMETRIC[k_]))
-                    else:
-                        res['S6'].append((f, key('chain(%s)' % render(c1)[:50]), '%s:%d' % (f.file, n.l), not why,
-                                          'arms are mirror images' if not why else
-                                          'the conditions `%s` / `%s` are mirror images and the arms have the same shape, but %s (second arm at line %d)'
-                                          % (render(c1)[:40], render(c2)[:40], why[0], y.kid('then').l)))
-    need = {'S1', 'S2', 'S4', 'S5', 'S6'}
+                pairs6.append((n, n.kid('else')))
+            if n.k == 'CompoundStmt':
+                ks = n.kids
+                for i_ in range(len(ks) - 1):
+                    if ks[i_].k == 'IfStmt' and ks[i_ + 1].k == 'IfStmt' and ks[i_].kid('else') is None and ks[i_ + 1].kid('else') is None:
+                        pairs6.append((ks[i_], ks[i_ + 1]))
+            for x6, y in pairs6:
+                c1, c2 = x6.kid('cond'), y.kid('cond')
+                if c1 is None or c2 is None or render(c1) == render(c2) or not chain_mirror(c1, c2):
+                    continue
+                alts = mirror_alts(x6.kid('then'), y.kid('then'))
+                base6 = 'chain(%s)' % render(c1)[:50]
+                k_ = '%s|%s' % (_fname(f), base6)
+                kk = None if isctl else key(base6)
+                if not alts:
+                    if not isctl:
+                        nc['chain:' + kk] = '%s:%d' % (f.file, x6.l)
+                    continue
+                why = best(alts)[0]
+                if isctl:
+                    if why:
+                        ctl.add('S6')
+                    continue
+                comparable.add('chain:' + kk)
+                if k_ in MIRROR_ASYMMETRIC:
+                    res['S6'].append((f, kk, '%s:%d' % (f.file, x6.l), True, 'listed as asymmetric: ' + MIRROR_ASYMMETRIC[k_]))
+                else:
+                    res['S6'].append((f, kk, '%s:%d' % (f.file, x6.l), not why,
+                                      'arms are mirror images' if not why else
+                                      'the conditions `%s` / `%s` are mirror images and the arms have the same shape, but %s (second arm at line %d)'
+                                      % (render(c1)[:40], render(c2)[:40], why[0], y.kid('then').l)))
+    # ---- S7: mirror-named sibling functions
+    seen7 = set()
+    for f in sorted(fb.funcs.values(), key=lambda g: (g.file, g.line, g.name)):
+        isctl = f.name.startswith('verif_ctl::')
+        if not (f.name.startswith('soplex::') or isctl) or not f.nodes or f.body is None or f.u in dead:
+            continue
+        for m in MIRS:
+            gname = ''.join(m.get(p_, p_) for p_ in pieces(f.short or ''))
+            if gname == f.short:
+                continue
+            full = f.name[:len(f.name) - len(f.short)] + gname
+            gs = [g for g in fb.find(full) if [t for _, t in g.params] == [t for _, t in f.params] and g.body is not None and g.const == f.const]
+            if len(gs) != 1 or (gs[0].u, f.u) in seen7 or (f.u, gs[0].u) in seen7:
+                continue
+            g = gs[0]
+            seen7.add((f.u, g.u))
+            k_ = '%s/%s' % (_fname(f), gname)
+            if len(f.params):
+                k_ += '(%s)' % ','.join(short_t(t) for _, t in f.params)
+            alts = mirror_alts(f.body, g.body)
+            if not alts:
+                if not isctl:
+                    nc['pair:' + k_] = '%s:%d' % (f.file, f.line)
+                continue
+            why, ren7 = best(alts)
+            if not why:
+                why = _uniform(ren7, m)
+            if isctl:
+                if why:
+                    ctl.add('S7')
+                continue
+            comparable.add('pair:' + k_)
+            acc = PAIR_ASYMMETRIC.get('%s/%s' % (_fname(f), gname))
+            res['S7'].append((f, k_, '%s:%d' % (f.file, f.line), (not why) or acc is not None,
+                              'bodies are mirror images' if not why else ('listed as asymmetric: ' + acc) if acc else
+                              '%s (line %d) and %s (line %d) have the same shape, but %s' % (f.short, f.line, gname, g.line, why[0])))
+    _reference(comparable, nc)
+    need = {'S1', 'S2', 'S4', 'S5', 'S6', 'S7'}
     if not need <= ctl:
         raise AnalysisBroken('shape rules: positive controls did not fire: %s' % sorted(need - ctl))
     for r, fl in FLOORS.items():
@@ -500,6 +562,53 @@ def _scan(fb):
     _CACHE['res'] = res
     _CACHE['ndead'] = ndead
     return res
+
+
+def _uniform(ren, m):
+    """in two functions whose NAMES differ by the mirror family m, every identifier of that family is exchanged too - except where both
+    sides are used symmetrically (lhs and rhs both occur unchanged)"""
+    same, flipped = set(), set()
+    for p, q in ren:
+        if p.startswith('@'):
+            continue
+        for w1, w2 in zip(re.findall(r'[A-Za-z_]\w*', p), re.findall(r'[A-Za-z_]\w*', q)):
+            if any(x in m for x in pieces(w1)):
+                (same if w1 == w2 else flipped).add(w1)
+    if not flipped:
+        return []
+    out = []
+    for w in sorted(same):
+        mw = ''.join(m.get(x, x) for x in pieces(w))
+        if mw not in same:
+            out.append('`%s` is used by both functions although everything else of its kind is exchanged (%s): the sibling works on the other side\'s data there'
+                       % (w, ', '.join('%s/%s' % (x, ''.join(m.get(y, y) for y in pieces(x))) for x in sorted(flipped)[:2])))
+    return out
+
+
+def short_t(t):
+    return re.sub(r'soplex::|const |class |struct ', '', t).replace(' ', '')[:40]
+
+
+REF = os.path.join(os.path.dirname(os.path.abspath(__file__)), 'mirror_reference.json')
+
+
+def _reference(comparable, nc):
+    """The chains and function pairs that are comparable (same shape on both sides) on the tree the rules were confirmed on are listed in
+    mirror_reference.json.  One of them that can no longer be compared has drifted apart: that is neither a pass nor a violation - the
+    rule has lost its object (ANALYSIS-BROKEN), and the report names it."""
+    import json
+    _CACHE['comparable'] = comparable
+    _CACHE['nc'] = nc
+    if os.environ.get('SPX_MIRROR_WRITE_REF'):
+        json.dump({'comparable': sorted(comparable)}, open(REF, 'w'), indent=0)
+        return
+    if not os.path.exists(REF):
+        raise AnalysisBroken('rules/mirror_reference.json is missing')
+    ref = set(json.load(open(REF))['comparable'])
+    lost = sorted(k for k in ref if k in nc)
+    if lost:
+        raise AnalysisBroken('mirror rule: the two sides of %s (%s) no longer have the same shape (a statement, call or operator exists on one side only); '
+                             'they were mirror images on the confirmed tree' % (lost[0], nc[lost[0]]))
 
 
 def _size_loop(n):
